@@ -7,26 +7,36 @@ export GOFLAGS=-mod=mod GOPROXY=off GOSUMDB=off GOTOOLCHAIN=local
 export PATH=$PATH:/usr/local/go/bin
 ROOT="$(cd "$(dirname "$0")" && pwd)"
 cd "$ROOT/mc" || exit 2
-cp -f /repo/go.sum go.sum 2>/dev/null
+REPO="${VERIF_REPO:-/repo}"
+cp -f "$REPO/go.sum" go.sum 2>/dev/null
 mkdir -p ../bin ../replays ../evidence
-if ! out=$(go build -tags verif -o ../bin/mc ./cmd/mc 2>&1); then
+MODFLAG=""
+BIN=../bin/mc
+if [ "$REPO" != "/repo" ]; then
+  # development aid only (seed matrix on scratch copies): alternative go.mod pointing at the copy
+  ALT="go.alt.$(echo "$REPO" | tr '/' '_').mod"
+  sed "s#=> /repo#=> $REPO#" go.mod > "$ALT"; cp -f go.sum "${ALT%.mod}.sum"
+  MODFLAG="-modfile=$ALT"; BIN="../bin/mc.$(echo "$REPO" | tr '/' '_')"
+fi
+if ! out=$(go build $MODFLAG -tags verif -o $BIN ./cmd/mc 2>&1); then
   # /repo's working tree does not compile together with the harness (e.g. a hook-visible API changed)
   echo "HARNESS-ERROR: build failed"; echo "$out" | head -40; exit 2
 fi
 TIER="${2:-${VERIF_TIER:-quick}}"
 if [ "$1" = "C17" ] && [ "$TIER" = "thorough" ]; then
   # the supplementary free-running race pass needs a separately built -race binary
-  go build -race -tags verif -o ../bin/mc-race ./cmd/mc >/dev/null 2>&1 || echo "note: -race build failed; race pass will be skipped"
+  go build $MODFLAG -race -tags verif -o ../bin/mc-race ./cmd/mc >/dev/null 2>&1 || echo "note: -race build failed; race pass will be skipped"
 fi
 cd "$ROOT"
 case "$1" in
-  replay) exec ./bin/mc replay "$2" ;;
+  replay) exec ./bin/$(basename $BIN) replay "$2" ;;
 esac
 PROP="$1"
-LOG="$ROOT/replays/$PROP/last-$TIER.log"
-mkdir -p "$ROOT/replays/$PROP"
+OUT="${VERIF_OUT:-$ROOT}"
+LOG="$OUT/replays/$PROP/last-$TIER.log"
+mkdir -p "$OUT/replays/$PROP"
 LIMIT=2400; [ "$TIER" = "thorough" ] && LIMIT=14400
-timeout -k 10 $LIMIT ./bin/mc check "$PROP" "$TIER" > "$LOG" 2>&1
+timeout -k 10 $LIMIT ./bin/$(basename $BIN) check "$PROP" "$TIER" > "$LOG" 2>&1
 rc=$?
 # show the verdict lines (and a bounded amount of detail)
 grep -E "^(VIOLATION|KNOWN-FINDING|SUMMARY|HARNESS-ERROR|FLAKY|  note:)" "$LOG" | head -200
@@ -39,7 +49,7 @@ if grep -q "^HARNESS-ERROR" "$LOG"; then exit 2; fi
 # The check process died (fatal runtime error / unrecovered panic in a goroutine the harness does not own,
 # e.g. a fault inside a gorgonia worker, concurrent map writes, stack exhaustion). On the unchanged tree this
 # never happens; with a modified /repo it is the library crashing under the explored inputs: report it.
-CRASH="$ROOT/replays/$PROP/crash-$TIER.log"
+CRASH="$OUT/replays/$PROP/crash-$TIER.log"
 tail -n 120 "$LOG" > "$CRASH"
 echo "VIOLATION property=$PROP replay=$CRASH"
 echo "  the check process crashed (exit $rc): $(grep -m1 -E '^(fatal error|panic):' "$LOG" | cut -c1-200)"
